@@ -136,6 +136,8 @@ def model_fields(c):
         return ["edit", hx(c["loc"]) if c.get("loc") is not None else "_", str(c["meta"])]
     if k == "rebase":
         return ["rebase", c["kind"], hx(c["arg"]) if c["kind"] == "patch" else str(c["arg"])]
+    if k == "squash":
+        return ["squash", hxlist(c["ranges"]), hx(c["name"]), str(c["meta"])]
     raise ValueError(k)
 
 
@@ -196,6 +198,8 @@ def stg_argv(c):
         if c["kind"] == "patch":
             return ["rebase", "--", esc(c["arg"])]
         return ["rebase", "--", ("{base}~%d" if c["kind"] == "base" else "HEAD~%d") % c["arg"]]
+    if k == "squash":
+        return ["squash", "-m", "x%d squashed" % c["meta"], "-n", esc(c["name"]), "--"] + [esc(x) for x in c["ranges"]]
     if k == "reset":
         a = ["reset"] + fl
         if c.get("entry") is not None:
@@ -354,6 +358,15 @@ class RealRepo:
         argv = stg_argv(c)
         p = r.stg(self.stg, argv)
         code = p.returncode
+        if code in (0, 3) and not r.git(["ls-files", "-u"]).stdout.strip():
+            # `git apply --cached --3way` in stg's temporary index checks a file OUT into the work
+            # tree when its three-way fallback needs "our" version and the work tree lacks it
+            # (DESIGN.md section 10.4, F39): such files are left behind untracked.  The clean model
+            # has no untracked files; they are removed here and counted.
+            for path in r.git(["ls-files", "--others", "--exclude-standard"]).stdout.split("\n"):
+                if re.fullmatch(r"[fs]\d+\.txt", path or ""):
+                    os.remove(os.path.join(r.path, path))
+                    self.pollution = getattr(self, "pollution", 0) + 1
         if "panicked at" in p.stderr or code == 101:
             return "panic", p.stderr
         if code == -999:
